@@ -141,8 +141,31 @@ def rows_with_cancelled_search(reactions, k):
         gd.rdFMCS = orig_mod
 
 
+def rows_with_failing_removal(reactions, k):
+    """run the pipeline while the k-th 'identify_optimal_substructure' of the MCS stage (the removal of a found pattern from the
+    product) raises: the pattern of that reactant is already recorded at that point"""
+    from synrbl.SynMCSImputer.SubStructure.substructure_analyzer import SubstructureAnalyzer
+    orig = SubstructureAnalyzer.identify_optimal_substructure
+    state = {"n": 0}
+
+    def flaky(self, *a, **kw):
+        state["n"] += 1
+        if state["n"] == k:
+            raise RuntimeError("injected: substructure removal failed")
+        return orig(self, *a, **kw)
+
+    SubstructureAnalyzer.identify_optimal_substructure = flaky
+    try:
+        return full_rows(reactions), state["n"]
+    finally:
+        SubstructureAnalyzer.identify_optimal_substructure = orig
+
+
 def replay(d):
     inp = d["input"]
+    if inp["kind"] == "removal-fails":
+        rows, _ = rows_with_failing_removal(inp["reactions"], inp["k"])
+        return any(row_ok(r) for r in rows)
     if inp["kind"] == "cancelled":
         rows, _ = rows_with_cancelled_search(inp["reactions"], inp["k"])
         return any(row_ok(r) for r in rows)
@@ -162,6 +185,8 @@ def check(run):
     # taken from the arguments) is the first conjunct of what is proved here
     run.deductive(["contracts.mcs_select"])
     run.deductive(["contracts.mcs_process"])
+    # where the pattern list is built: one entry per sorted reactant unless a None entry marks a failed search (which single_mcs rejects)
+    run.deductive(["contracts.mcs_detect"])
     run.assume("ExtractMCS.get_largest_condition is verified in the record view of contracts/mcs_select.py; MCSSearch.find uses the weaker row-view "
                "contract 'every result is one of the argument records', which is the first conjunct of the proved postcondition")
     rnd = random.Random(run.seed)
@@ -217,4 +242,19 @@ def check(run):
                 fails.append(({"kind": "cancelled", "reactions": multi, "k": k}, "search #%d cancelled: %s" % (k, bad)))
     run.bounded("cancelled-searches", "4 multi-molecule reactions, one of the %d substructure searches cancelled at a time (%d positions tried)" % (n_calls, len(ks)),
                 cases, len(ks), fails[:5], run.tier != "quick")
+    # the same with the substructure removal step failing once (the pattern of that reactant is recorded before it)
+    fails, cases = [], 0
+    _, n_calls2 = rows_with_failing_removal(multi, 0)
+    ks2 = list(range(1, n_calls2 + 1))
+    if run.tier == "quick":
+        ks2 = ks2[:8] + rnd.sample(ks2[8:], min(6, max(0, len(ks2) - 8)))
+    for k in ks2:
+        cases += 1
+        rows, _ = rows_with_failing_removal(multi, k)
+        for row in rows:
+            bad = row_ok(row)
+            if bad:
+                fails.append(({"kind": "removal-fails", "reactions": multi, "k": k}, "substructure removal #%d raised: %s" % (k, bad)))
+    run.bounded("failing-removals", "the same reactions, one of the %d substructure removals raising at a time (%d positions tried)" % (n_calls2, len(ks2)),
+                cases, len(ks2), fails[:5], run.tier != "quick")
     run.assume("RDKit FindMCS / FindMCES return a pattern that matches both arguments (checked here with HasSubstructMatch on every reported pattern)")
